@@ -154,6 +154,8 @@ def check(tier: str) -> Result:
     n_mg = shape_rules.meshgrid_reshape_obligations(res, tree, "C04.R7")
     from . import lbf_rules
     n_lbf = lbf_rules.add_obligations(res, tree, "C04.R5", "mask")
+    # the environment's own reaction to a masked-in move: step's movement / loading code ignores eaten food as the mask does
+    n_lbf += lbf_rules.add_obligations(res, tree, "C04.R5", "transition")
     from . import wiring
     n_pc = wiring.paired_call_args(res, tree, "C04.R8", "mask", lambda ci: True)
     res.analysed = {"environments_with_mask": mask_envs, "step_consults_state_mask": reads_mask, "mask_vs_validity": r3b,
